@@ -57,3 +57,22 @@ func BuiltInLazy() map[string]bool {
 	}
 	return out
 }
+
+// InferTypeEnv is InferType with a ready typing environment (e.g. one that
+// conv.TypeEnvOf derived from host data).
+func InferTypeEnv(src string, tenv *types.Env) (ty *model.Type, err error, p *Panic) {
+	var yt *types.Type
+	p = Guard(func() {
+		e := yae.NewExpr()
+		tree := trans.Desugar(e.Parse(src))
+		fenv := types.NewEnv()
+		for _, f := range fun.BuiltIn() {
+			fenv.RegisterFun(f.Type)
+		}
+		yt, err = types.Infer(tree, tenv.Extend(fenv))
+	})
+	if p == nil && err == nil && yt != nil {
+		ty = FromYaeType(yt)
+	}
+	return
+}
